@@ -8,7 +8,7 @@ from sa.emit import Elem, Opt, walk_elems
 from sa.flow import show, sig, subterms
 from sa.model import AnalysisError, norm, parent, walk_no_nested
 
-from .common import rename_rewrite_ok, rename_rewrite_sites, alts, callers_of, commands, is_call, is_plain_iter, need, prov
+from .common import atomic_deps, rename_rewrite_ok, rename_rewrite_sites, alts, callers_of, commands, is_call, is_plain_iter, need, prov
 from .c03 import pipeline_funcs, tfm_func, traversal_loop
 from .xmlcommon import documents
 
@@ -188,15 +188,16 @@ def run(report, p):
     r4 = report.rule(
         "R17.4",
         "a previous path is only ever assigned under -dr and under equality of two digests of the SAME format: the not-found record's first entry versus the new record's entry of that format, "
-        "or versus a digest of the new file computed right there in that format (not a cached value); the matched old path is taken out of the missing set",
-        2,
+        "or versus a digest of the new file computed right there in that format (not a cached value); the matched old path is taken out of the missing set - "
+        "and whenever it is, the previous path is recorded (extra conditions on the store may only select which record receives it)",
+        1,
     )
     cf = next((f for f, _ in pipeline_funcs(p, tfm) if "detect_renaming" in f.params), None)
     if cf is None:
         raise AnalysisError("create folder command not found")
     g = cfg_of(cf)
     stores = [n for n in walk_no_nested(cf.node) if isinstance(n, ast.Assign) and isinstance(n.targets[0], ast.Attribute) and n.targets[0].attr == "previous_path"]
-    if len(stores) < 2:
+    if len(stores) < 1:
         raise AnalysisError("create: previous_path assignments not found")
     for st in stores:
         r4.instance(cf, st, norm(st)[:90])
@@ -238,6 +239,31 @@ def run(report, p):
         stops = {h.id for h in g.nodes if h.kind == "loop"} | {g.exit.id}
         path = g.find_path(sn, stops, avoid={a.id for a in adds})
         r4.check(bool(adds) and path is None, cf, st, "a detected rename does not take the old path out of the set of missing files", witness=g.fmt_path(path) if path else None, construct="matched path not subtracted")
+        # ... and conversely: whenever the match takes the old path out of the missing set, the previous path is recorded. The store may sit under
+        # additional tests that only select WHICH record receives it (root entry of a nested history / that record exists), nothing else
+        def iter_atoms(node):
+            out = []
+            for t, l in g.control_deps(node, through_loops=False):
+                if t.kind == "test":
+                    out += [(a, t.ast) for a in atomic_deps(t.ast, l)]
+            return out
+
+        st_atoms = iter_atoms(sn)
+        best = None
+        for a in adds:
+            if a.id not in g.reachable_from([sn]):
+                continue
+            a_atoms = {x for x, _ in iter_atoms(a)}
+            extra = [(x, tast) for x, tast in st_atoms if x not in a_atoms]
+            if best is None or len(extra) < len(best):
+                best = extra
+        for (txt, lab), tast in best or []:
+            if txt.endswith(".path == '.'"):
+                continue
+            nm = next((x for x in ast.walk(tast) if isinstance(x, ast.Name) and x.id == txt), None)
+            if nm is not None and lab == "T" and any(any(is_call(x, "find_media_hash_for_path") or is_call(x, "find_or_create_media_hash_for_path") for x in subterms(o)) for o in pr.origins(nm, cf)):
+                continue
+            r4.check(False, cf, st, f"the match takes the old path out of the missing set unconditionally, but the previous path is only recorded when `{txt}` is {'true' if lab == 'T' else 'false'}: a rename for which it is not leaves no trace (the file shows up as new and its old name silently disappears from the history)", construct=f"previous_path recorded only when {txt} is {lab}")
     sub = [n for n in walk_no_nested(cf.node) if isinstance(n, ast.Assign) and isinstance(n.value, ast.BinOp) and isinstance(n.value.op, ast.Sub) and "found" in norm(n.value.right)]
     tcall = g.node_for(next(c for f2, c in pipeline_funcs(p, tfm) if f2 is cf))
     oksub = len(sub) == 1 and all(g.find_path(g.node_for(st), {tcall.id}, avoid={g.node_for(sub[0]).id}) is None for st in stores)
